@@ -8,8 +8,8 @@ import (
 
 func init() {
 	register(&propDef{
-		id:  "C04",
-		run: runC04,
+		id:          "C04",
+		run:         runC04,
 		explanation: "Static must-precede / must-pass-through / guard analysis over the SSA control-flow graphs of the write path, the table builder, the manifest writer, the flush, journal recovery and transaction commit: on EVERY CFG path (under the assumption NoSync=false, and sync=true where it is a parameter) the durability point (journal Flush+Sync, table Close+Sync, manifest Flush+Sync, CURRENT switch) precedes the action that makes the result visible or deletes the superseded file. These are necessary conditions for crash safety: breaking any of them yields a crash point at which an acknowledged write is lost or the DB cannot reopen. The crash-point enumeration itself (which bytes are on disk) is dynamic and is NOT decided.",
 		notCovered:  "actual post-crash images, torn-write tolerance of the decoders, nested crashes, every statement about which bytes are on disk; sufficiency of the orderings",
 		assumptions: []string{"Options.NoSync == false and WriteOptions.Sync == true on the checked paths (mode assumptions prune the corresponding CFG edges)", "storage.Writer.Sync makes previously written bytes durable", "an error-typed value tested non-nil marks an error path"},
@@ -17,16 +17,16 @@ func init() {
 }
 
 const (
-	fJNext   = "(*leveldb/journal.Writer).Next"
-	fJFlush  = "(*leveldb/journal.Writer).Flush"
-	fJReset  = "(*leveldb/journal.Writer).Reset"
-	fCommit  = "(*leveldb.session).commit"
-	fSetVer  = "(*leveldb.session).setVersion"
-	fNewMan  = "(*leveldb.session).newManifest"
-	fFlushMan = "(*leveldb.session).flushManifest"
-	fRecCommitted = "(*leveldb.session).recordCommited"
-	fEncode  = "(*leveldb.sessionRecord).encode"
-	fSetSeqNum = "(*leveldb.sessionRecord).setSeqNum"
+	fJNext         = "(*leveldb/journal.Writer).Next"
+	fJFlush        = "(*leveldb/journal.Writer).Flush"
+	fJReset        = "(*leveldb/journal.Writer).Reset"
+	fCommit        = "(*leveldb.session).commit"
+	fSetVer        = "(*leveldb.session).setVersion"
+	fNewMan        = "(*leveldb.session).newManifest"
+	fFlushMan      = "(*leveldb.session).flushManifest"
+	fRecCommitted  = "(*leveldb.session).recordCommited"
+	fEncode        = "(*leveldb.sessionRecord).encode"
+	fSetSeqNum     = "(*leveldb.sessionRecord).setSeqNum"
 	fSetJournalNum = "(*leveldb.sessionRecord).setJournalNum"
 )
 
@@ -216,54 +216,7 @@ func runC04(p *Prog, r *Report) {
 	}
 
 	if want("C04.7") {
-		r.Begin("C04.7", "E-ORD", "flush: memCompaction builds the table, commits the edit, and only then drops the frozen buffer and its journal; the edit records the frozen buffer's sequence and the live journal's number", 5)
-		if fn := resolveFn(p, r, "leveldb", "(*DB).memCompaction"); fn != nil {
-			build := evCall("(*leveldb.DB).compactionTransactFunc")
-			commit := evCall("(*leveldb.DB).compactionCommit")
-			drop := evCall("(*leveldb.DB).dropFrozenMem")
-			nonEmpty := assumeBool(func(v ssa.Value) (bool, bool) {
-				// `mdb.Len() == 0` is false
-				if b, ok := v.(*ssa.BinOp); ok && b.Op == token.EQL {
-					if _, isLen := callValue(b.X, "(*leveldb/memdb.DB).Len"); isLen && mConstInt(0)(b.Y) {
-						return false, true
-					}
-				}
-				return false, false
-			})
-			ordPrecede(p, r, fn, "build-before-commit", nil, build, "compactionTransactFunc(flush)", commit, "compactionCommit")
-			ordPrecede(p, r, fn, "commit-before-drop", nonEmpty, commit, "compactionCommit", drop, "dropFrozenMem (non-empty buffer)")
-			ordPrecede(p, r, fn, "seq-before-commit", nil, evCall(fSetSeqNum), "rec.setSeqNum", commit, "compactionCommit")
-			ordPrecede(p, r, fn, "journal-before-commit", nil, evCall(fSetJournalNum), "rec.setJournalNum", commit, "compactionCommit")
-			// value origins
-			checkCallArg(p, r, fn, "seq-is-frozenSeq", fSetSeqNum, 1, mFieldLoad(tDB, "frozenSeq"), "db.frozenSeq (the sequence at the moment the buffer was frozen; db.seq would run ahead of unflushed records)")
-			checkCallArg(p, r, fn, "journal-is-live", fSetJournalNum, 1, func(v ssa.Value) bool {
-				// db.journalFd.Num
-				u, ok := stripConv(v).(*ssa.UnOp)
-				if !ok {
-					return false
-				}
-				fa, ok := u.X.(*ssa.FieldAddr)
-				if !ok {
-					return false
-				}
-				_, f, base, ok := fieldOf(fa)
-				return ok && f == "Num" && isFieldAddr(base, tDB, "journalFd")
-			}, "db.journalFd.Num (the journal that replaces the frozen one)")
-			// the flush closure really flushes the frozen buffer into the same record
-			var fl *ssa.Function
-			for _, a := range fn.AnonFuncs {
-				if countInstr(a, evCall("(*leveldb.session).flushMemdb")) > 0 {
-					fl = a
-				}
-			}
-			r.Check(fl != nil, fnName(fn), "flush-closure", "the transact closure calls session.flushMemdb", "no closure calling flushMemdb", p.Pos(fn.Pos()))
-		}
-		if fn := resolveFn(p, r, "leveldb", "(*DB).dropFrozenMem"); fn != nil {
-			// removal of the journal file and clearing frozenMem happen under memMu
-			ordOnSuccess(p, r, fn, "journal-removed", nil, evStorageInvoke("Remove"), "stor.Remove(frozenJournalFd)")
-			checkCallArg(p, r, fn, "removes-frozen-journal", "iface:leveldb/storage.Storage.Remove", 0, mFieldLoad(tDB, "frozenJournalFd"), "db.frozenJournalFd")
-		}
-		r.End()
+		ruleFlushOrder(p, r, "C04.7")
 	}
 
 	if want("C04.8") {
@@ -291,20 +244,7 @@ func runC04(p *Prog, r *Report) {
 	}
 
 	if want("C04.9") {
-		r.Begin("C04.9", "E-ORD", "transaction commit: tables are flushed, the edit carries the transaction's sequence, the manifest commit succeeds, and only then is db.seq published", 4)
-		if fn := resolveFn(p, r, "leveldb", "(*Transaction).Commit"); fn != nil {
-			fl := evCall("(*leveldb.Transaction).flush")
-			commit := evCall(fCommit)
-			setSeq := evCall("(*leveldb.DB).setSeq")
-			ordPrecede(p, r, fn, "flush-before-commit", nil, fl, "tr.flush", commit, "s.commit")
-			ordPrecede(p, r, fn, "seqnum-before-commit", nil, evCall(fSetSeqNum), "rec.setSeqNum", commit, "s.commit")
-			ordPrecede(p, r, fn, "commit-before-setSeq", nil, commit, "s.commit", setSeq, "db.setSeq")
-			ordNotOnError(p, r, fn, "no-setSeq-on-commit-error", mOr(mErrOfCall(fCommit), mCellNamed("cerr")), "s.commit", commit, setSeq, "db.setSeq")
-			ordNotOnError(p, r, fn, "no-commit-on-flush-error", mErrOfCall("(*leveldb.Transaction).flush"), "tr.flush", fl, commit, "s.commit")
-			checkCallArg(p, r, fn, "seqnum-is-tr.seq", fSetSeqNum, 1, mFieldLoad(tTr, "seq"), "tr.seq")
-			checkCallArg(p, r, fn, "setSeq-is-tr.seq", "(*leveldb.DB).setSeq", 1, mFieldLoad(tTr, "seq"), "tr.seq")
-		}
-		r.End()
+		ruleTrCommitOrder(p, r, "C04.9")
 	}
 
 	if want("C04.10") {
@@ -319,3 +259,71 @@ func runC04(p *Prog, r *Report) {
 }
 
 func itoa(n int) string { return fmtInt(n) }
+
+func ruleFlushOrder(p *Prog, r *Report, rule string) {
+	r.Begin(rule, "E-ORD", "flush: memCompaction builds the table, commits the edit, and only then drops the frozen buffer and its journal; the edit records the frozen buffer's sequence and the live journal's number", 5)
+	if fn := resolveFn(p, r, "leveldb", "(*DB).memCompaction"); fn != nil {
+		build := evCall("(*leveldb.DB).compactionTransactFunc")
+		commit := evCall("(*leveldb.DB).compactionCommit")
+		drop := evCall("(*leveldb.DB).dropFrozenMem")
+		nonEmpty := assumeBool(func(v ssa.Value) (bool, bool) {
+			// `mdb.Len() == 0` is false
+			if b, ok := v.(*ssa.BinOp); ok && b.Op == token.EQL {
+				if _, isLen := callValue(b.X, "(*leveldb/memdb.DB).Len"); isLen && mConstInt(0)(b.Y) {
+					return false, true
+				}
+			}
+			return false, false
+		})
+		ordPrecede(p, r, fn, "build-before-commit", nil, build, "compactionTransactFunc(flush)", commit, "compactionCommit")
+		ordPrecede(p, r, fn, "commit-before-drop", nonEmpty, commit, "compactionCommit", drop, "dropFrozenMem (non-empty buffer)")
+		ordPrecede(p, r, fn, "seq-before-commit", nil, evCall(fSetSeqNum), "rec.setSeqNum", commit, "compactionCommit")
+		ordPrecede(p, r, fn, "journal-before-commit", nil, evCall(fSetJournalNum), "rec.setJournalNum", commit, "compactionCommit")
+		// value origins
+		checkCallArg(p, r, fn, "seq-is-frozenSeq", fSetSeqNum, 1, mFieldLoad(tDB, "frozenSeq"), "db.frozenSeq (the sequence at the moment the buffer was frozen; db.seq would run ahead of unflushed records)")
+		checkCallArg(p, r, fn, "journal-is-live", fSetJournalNum, 1, func(v ssa.Value) bool {
+			// db.journalFd.Num
+			u, ok := stripConv(v).(*ssa.UnOp)
+			if !ok {
+				return false
+			}
+			fa, ok := u.X.(*ssa.FieldAddr)
+			if !ok {
+				return false
+			}
+			_, f, base, ok := fieldOf(fa)
+			return ok && f == "Num" && isFieldAddr(base, tDB, "journalFd")
+		}, "db.journalFd.Num (the journal that replaces the frozen one)")
+		// the flush closure really flushes the frozen buffer into the same record
+		var fl *ssa.Function
+		for _, a := range fn.AnonFuncs {
+			if countInstr(a, evCall("(*leveldb.session).flushMemdb")) > 0 {
+				fl = a
+			}
+		}
+		r.Check(fl != nil, fnName(fn), "flush-closure", "the transact closure calls session.flushMemdb", "no closure calling flushMemdb", p.Pos(fn.Pos()))
+	}
+	if fn := resolveFn(p, r, "leveldb", "(*DB).dropFrozenMem"); fn != nil {
+		// removal of the journal file and clearing frozenMem happen under memMu
+		ordOnSuccess(p, r, fn, "journal-removed", nil, evStorageInvoke("Remove"), "stor.Remove(frozenJournalFd)")
+		checkCallArg(p, r, fn, "removes-frozen-journal", "iface:leveldb/storage.Storage.Remove", 0, mFieldLoad(tDB, "frozenJournalFd"), "db.frozenJournalFd")
+	}
+	r.End()
+}
+
+func ruleTrCommitOrder(p *Prog, r *Report, rule string) {
+	r.Begin(rule, "E-ORD", "transaction commit: tables are flushed, the edit carries the transaction's sequence, the manifest commit succeeds, and only then is db.seq published", 4)
+	if fn := resolveFn(p, r, "leveldb", "(*Transaction).Commit"); fn != nil {
+		fl := evCall("(*leveldb.Transaction).flush")
+		commit := evCall(fCommit)
+		setSeq := evCall("(*leveldb.DB).setSeq")
+		ordPrecede(p, r, fn, "flush-before-commit", nil, fl, "tr.flush", commit, "s.commit")
+		ordPrecede(p, r, fn, "seqnum-before-commit", nil, evCall(fSetSeqNum), "rec.setSeqNum", commit, "s.commit")
+		ordPrecede(p, r, fn, "commit-before-setSeq", nil, commit, "s.commit", setSeq, "db.setSeq")
+		ordNotOnError(p, r, fn, "no-setSeq-on-commit-error", mOr(mErrOfCall(fCommit), mCellNamed("cerr")), "s.commit", commit, setSeq, "db.setSeq")
+		ordNotOnError(p, r, fn, "no-commit-on-flush-error", mErrOfCall("(*leveldb.Transaction).flush"), "tr.flush", fl, commit, "s.commit")
+		checkCallArg(p, r, fn, "seqnum-is-tr.seq", fSetSeqNum, 1, mFieldLoad(tTr, "seq"), "tr.seq")
+		checkCallArg(p, r, fn, "setSeq-is-tr.seq", "(*leveldb.DB).setSeq", 1, mFieldLoad(tTr, "seq"), "tr.seq")
+	}
+	r.End()
+}
